@@ -494,19 +494,25 @@ pub fn oracle_c06(case: &Case, lines: &[String], declared_in_order: &[String]) -
     let mut out_names: Vec<String> = case.sigs.iter().filter(|s| s.is_output()).map(|s| hex(&s.name)).collect();
     out_names.extend(declared_in_order.iter().map(|d| hex(d)));
     let header: Vec<String> = case.prog.header.iter().map(|h| hex(h)).collect();
+    // the vectors actually handed to the driver, in call order (the constructor's call first)
+    let mut calls: Vec<HashMap<String, String>> = Vec::new();
     let mut prev: HashMap<String, String> = HashMap::new();
     for l in &ls {
         if l.starts_with("call ") {
-            // remembered after the item check below uses the previous vector
+            let mut m = HashMap::new();
+            for e in list_items(field(l, "in").unwrap_or("[]")) {
+                let (n, v, _) = in_entry(e);
+                m.insert(n.to_string(), v.to_string());
+            }
+            calls.push(m);
             continue;
         }
         if !(l.starts_with("item ") && item_kind(l) == "row") {
-            if l.starts_with("ctor ok") {
-                for s in case.sigs.iter().filter(|s| s.is_input()) {
-                    prev.insert(hex(&s.name), s.default.map(|n| n.to_string()).unwrap_or("Z".into()));
-                }
-            }
             continue;
+        }
+        // the call for this row is the last one logged; the previous vector is the one before it
+        if calls.len() >= 2 {
+            prev = calls[calls.len() - 2].clone();
         }
         let ins = list_items(field(l, "in").unwrap_or("[]"));
         let names: Vec<String> = ins.iter().map(|e| in_entry(e).0.to_string()).collect();
@@ -529,10 +535,6 @@ pub fn oracle_c06(case: &Case, lines: &[String], declared_in_order: &[String]) -
                     }
                 }
             }
-        }
-        for e in &ins {
-            let (n, v, _) = in_entry(e);
-            prev.insert(n.to_string(), v.to_string());
         }
         let outs = list_items(field(l, "out").unwrap_or("[]"));
         if !outs.is_empty() || out_names.is_empty() {
